@@ -102,6 +102,11 @@ def run_carrier(chk, prop, exprs, part='carrier'):
             # (nothing to compare with; counted, not judged)
             chk.skip('carrier: float64 reference raises', 1)
             continue
+        if isinstance(got, Exception) and c['carrier'] in ('longdouble', 'masked'):
+            # an extended-precision or masked array refused loudly: no property promises these wrappers are accepted; what is
+            # required is that an accepted one gives the result of the values it holds
+            chk.skip('carrier: %s refused' % c['carrier'], 1)
+            continue
         if isinstance(got, Exception):
             chk.violation('%s:carrier:%s:%s:raises' % (prop, fn, c['carrier']),
                           '`%s` raises %r for a record (|x| <= %d, %s) carried as %s; the same values as a plain float64 array are accepted'
